@@ -138,7 +138,10 @@ def flat_stmt(t):
     if h == "SClassicalDecl":
         ty = a[0]
         size = pyval(ty[2][0][2][0][2][0]) if ty[1] == "TBit" and ty[2][0][1] == "Some" else 1
-        return ("creg", a[1][1], size)
+        init = ()
+        if a[2][1] == "Some":
+            init = (("init", pyval(a[2][2][0][2][0])),)      # Some (ELit v)
+        return ("creg", a[1][1], size) + init
     if h == "SGate":
         mods = [m[1] for m in a[0][1]]
         args = [pyval(x[2][0]) for x in a[2][1]]
